@@ -621,26 +621,22 @@ class CallMixin(object):
                     new = u.fresh("H" + key.replace("$", "_"), self.heap_array(st, key).sort())
                     st.heap[key] = new
             elif m == "dicts":
-                for key in ("$has", "$val", "$keys", "$len", "$at"):
+                for key in ("$has", "$val", "$dlen", "$klen", "$kat"):
                     new = u.fresh("H" + key.replace("$", "_"), self.heap_array(st, key).sort())
                     st.heap[key] = new
             elif m.startswith("list(") or m.startswith("dict("):
                 inner = m[5:-1]
                 v, _ = self.spec_value(inner, old, env)
                 r = u.r(v.z)
-                keys = ("$len", "$at") if m.startswith("list(") else ("$has", "$val", "$len")
+                keys = ("$len", "$at") if m.startswith("list(") else ("$has", "$val", "$dlen", "$klen", "$kat")
                 for key in keys:
                     arr = self.heap_array(st, key)
                     st.heap[key] = z3.Store(arr, r, u.fresh("hv", arr.sort().range()))
-                if m.startswith("dict("):
-                    # the key-order list of the dict
-                    kz = self.heap_array(st, "$keys")[r]
-                    kr = u.r(kz)
-                    for key in ("$len", "$at"):
-                        arr = self.heap_array(st, key)
-                        st.heap[key] = z3.Store(arr, kr, u.fresh("hv", arr.sort().range()))
-                if st.heap["$len"] is not None:
+                if m.startswith("list("):
                     st.assume(st.heap["$len"][r] >= 0)
+                else:
+                    st.assume(st.heap["$dlen"][r] >= 0)
+                    st.assume(st.heap["$klen"][r] >= 0)
             elif m.startswith("each("):
                 # each(seq_expr).field : the field of every element of the sequence
                 inner, f = m[5:].split(").", 1)
@@ -699,7 +695,15 @@ class CallMixin(object):
             n = self.tuple_len_f()(self.u.r(v.z))
             st.assume(n >= 0)
             return st, self.mk_int(n)
-        if v.z is not None and v.cls in ("list", "tuple", "dict", "set"):
+        if v.z is not None and v.cls in ("dict", "set"):
+            n = self.heap_array(st, "$dlen")[self.u.r(v.z)]
+            st.assume(n >= 0)
+            return st, self.mk_int(n)
+        if v.z is not None and v.cls == "dictkeys":
+            n = self.heap_array(st, "$klen")[self.u.r(v.z)]
+            st.assume(n >= 0)
+            return st, self.mk_int(n)
+        if v.z is not None and v.cls in ("list", "tuple"):
             n = self.heap_array(st, "$len")[self.u.r(v.z)]
             st.assume(n >= 0)
             return st, self.mk_int(n)
@@ -915,7 +919,7 @@ class CallMixin(object):
             x = u.fresh_val("x")
             if src.cls == "set":
                 st.assume(has == self.heap_array(st, "$has")[rs])
-                n = self.heap_array(st, "$len")[rs]
+                n = self.heap_array(st, "$dlen")[rs]
             else:
                 k = u.fresh_int("k")
                 ln = self.seq_len(st, src)
@@ -925,7 +929,7 @@ class CallMixin(object):
                 n = u.fresh_int("setlen")
                 st.assume(z3.And(n >= 0, n <= ln, (n == 0) == (ln == 0)))
             st.heap["$has"] = z3.Store(self.heap_array(st, "$has"), r, has)
-            st.heap["$len"] = z3.Store(self.heap_array(st, "$len"), r, n)
+            st.heap["$dlen"] = z3.Store(self.heap_array(st, "$dlen"), r, n)
             return st, res
         raise Undecided("set(%r)" % (src,))
 
@@ -958,8 +962,6 @@ class CallMixin(object):
                 return self.bi_list(st, acc, [it], {}, node)
         if src.kind == "dictview" or (src.kind == "ref" and src.cls == "set"):
             seq = self.iterable_to_seq(st, acc, src, node)
-            if src.kind == "dictview" and src.py[0] == "keys":
-                return self.bi_list(st, acc, [seq], {}, node)     # a copy of the key list
             return st, seq
         raise Undecided("list(%r)" % (src,))
 
@@ -1250,12 +1252,14 @@ class CallMixin(object):
                     d = self.box(st, args[1])
                     result = SV(z3.If(has, val, d.z))
                 hs = self.heap_array(st, "$has")[r]
-                n = self.heap_array(st, "$len")[r]
+                n = self.heap_array(st, "$dlen")[r]
                 st.heap["$has"] = z3.Store(st.heap["$has"], r, z3.Store(hs, key.z, z3.BoolVal(False)))
-                st.heap["$len"] = z3.Store(st.heap["$len"], r, z3.If(has, n - 1, n))
-                # key order list no longer tracked precisely
-                kz = self.heap_array(st, "$keys")[r]
-                st.heap["$keys"] = z3.Store(st.heap["$keys"], r, u.fresh_val("keys"))
+                st.heap["$dlen"] = z3.Store(st.heap["$dlen"], r, z3.If(has, n - 1, n))
+                # key order after a removal is not tracked precisely
+                nk = u.fresh_int("klen")
+                st.assume(nk >= 0)
+                st.heap["$klen"] = z3.Store(self.heap_array(st, "$klen"), r, nk)
+                st.heap["$kat"] = z3.Store(self.heap_array(st, "$kat"), r, u.fresh("kat", u.ElemsSort))
                 return st, result
             if name == "update":
                 raise Undecided("dict.update")
@@ -1267,9 +1271,9 @@ class CallMixin(object):
                 item = self.box(st, args[0])
                 hs = self.heap_array(st, "$has")[r]
                 had = hs[item.z]
-                n = self.heap_array(st, "$len")[r]
+                n = self.heap_array(st, "$dlen")[r]
                 st.heap["$has"] = z3.Store(st.heap["$has"], r, z3.Store(hs, item.z, z3.BoolVal(True)))
-                st.heap["$len"] = z3.Store(st.heap["$len"], r, z3.If(had, n, n + 1))
+                st.heap["$dlen"] = z3.Store(st.heap["$dlen"], r, z3.If(had, n, n + 1))
                 return st, self.mk_none()
             if name == "update":
                 other = args[0]
@@ -1280,11 +1284,11 @@ class CallMixin(object):
                     new = u.fresh("union", u.HasInner)
                     x = u.fresh_val("x")
                     st.assume(z3.ForAll([x], new[x] == z3.Or(hs[x], ho[x])))
-                    n, no = self.heap_array(st, "$len")[r], self.heap_array(st, "$len")[ro]
+                    n, no = self.heap_array(st, "$dlen")[r], self.heap_array(st, "$dlen")[ro]
                     nn = u.fresh_int("setlen")
                     st.assume(z3.And(nn >= n, nn >= no, nn <= n + no))
                     st.heap["$has"] = z3.Store(st.heap["$has"], r, new)
-                    st.heap["$len"] = z3.Store(st.heap["$len"], r, nn)
+                    st.heap["$dlen"] = z3.Store(st.heap["$dlen"], r, nn)
                     return st, self.mk_none()
                 raise Undecided("set.update(non-set)")
             raise Undecided("set.%s" % name)
@@ -1307,11 +1311,16 @@ class CallMixin(object):
             what, d = v.py
             u = self.u
             r = self.as_ref(d)
-            kz = self.heap_array(st, "$keys")[r]
-            st.assume(u.is_R(kz))
-            keys = SV(kz, "ref", cls="list", elem=(d.elem.split("->")[0] if d.elem and "->" in d.elem else None))
+            keys = SV(d.z, "ref", cls="dictkeys", elem=None)
             if what == "keys":
-                return keys
+                n = self.seq_len(st, keys)
+                st.assume(n >= 0)
+                res = self.new_symbolic_seq(st, "list", None, length=n)
+                k = u.fresh_int("k")
+                ke = self.seq_elems(st, keys)
+                re_ = self.seq_elems(st, res)
+                st.assume(z3.ForAll([k], z3.Implies(z3.And(0 <= k, k < n), re_(k) == ke(k))))
+                return res
             n = self.seq_len(st, keys)
             st.assume(n >= 0)
             res = self.new_symbolic_seq(st, "list", None, length=n)
@@ -1338,7 +1347,7 @@ class CallMixin(object):
             pos = u.fresh("setpos", z3.ArraySort(u.Val, u.Int))
             st.assume(z3.ForAll([x], z3.Implies(has[x], z3.And(0 <= pos[x], pos[x] < n, el(pos[x]) == x))))
             st.assume(z3.ForAll([k], z3.Implies(z3.And(0 <= k, k < n), pos[el(k)] == k)))
-            st.assume((n == 0) == (self.heap_array(st, "$len")[r] == 0))
+            st.assume((n == 0) == (self.heap_array(st, "$dlen")[r] == 0))
             return res
         raise Undecided("not iterable as a sequence: %r" % (v,))
 
